@@ -25,12 +25,12 @@ def absent : Name := 1
 
 /-- the default registry, numbers as the bit patterns of the doubles the code holds -/
 def ctxBits : Ctx Nat :=
-  { globals := parserGlobalsC, inv := invTree, pre := prefixesT, lut := lutT }
+  { globals := parserGlobalsC, inv := invTree, rewritten := rewrittenT, pre := prefixesT, lut := lutT }
 
 /-- the custom registry of the translator plugin (`make_custom_registry`): the rows it added or
     modified shadow the default rows -/
 def customCtxBits : Ctx Nat :=
-  { globals := parserGlobalsC, inv := invTree, pre := prefixesT, lut := customLutT }
+  { globals := parserGlobalsC, inv := invTree, rewritten := rewrittenT, pre := prefixesT, lut := customLutT }
 
 /-- the default registry at a numeric carrier -/
 def ctx (K : Type) [OfBits K] : Ctx K := ctxBits.mapK OfBits.ofBits
@@ -72,9 +72,6 @@ def symOf : Option Reading → Name
 
 def refVerdict (s : Name) : Ref.C14.Verdict := Ref.C14.verdict charTable baseTreeC s
 
-/-- the guard of the partial theorem (known finding `unusable|word+alias|°`) -/
-def excluded (s : Name) : Bool := Ref.C14.isWordPrefixedDegreeC charTable s
-
 /-- the search tree holds exactly this row for the name -/
 def treeOk (r : NameRow) : Bool :=
   match invTree.get? r.name with
@@ -100,10 +97,11 @@ def usOk (r : NameRow) : Bool :=
     readingMatches u k c && Nat.beq r.usSym (symOf u)
   | _ => false
 
-/-- `unyt.<name>`: shadowed (then it is not a unit attribute: no claim, and the live attribute is
-    indeed not a Unit), else the `unit_symbols` object -/
+/-- `unyt.<name>`: shadowed — allowed only for the names the reference documents as names of
+    physical constants; it is then not a unit attribute (no claim) and the live attribute is indeed
+    not a Unit — else the `unit_symbols` object, which must be there -/
 def topOk (r : NameRow) : Bool :=
-  if memN r.name shadowedC then Nat.beq r.topSym absent
+  if memN r.name shadowedC then Nat.beq r.topSym absent && memN r.name Ref.C14.shadowedByConstants
   else match refVerdict r.name with
     | .unique k c =>
       let u := topLevelAttr ctxBits shadowedC r.name
@@ -120,23 +118,23 @@ def customOk (r : NameRow) : Bool :=
     | _ => false)
 
 /-- all of the above with the reference evaluated once (what the chunk obligations decide) -/
-def nameCheck (full : Bool) (r : NameRow) : Bool :=
+def nameCheck (r : NameRow) : Bool :=
   treeOk r &&
   match refVerdict r.name with
   | .unique k c =>
-    (readingMatches (stringReading ctxBits r.name) k c || (!full && excluded r.name))
+    readingMatches (stringReading ctxBits r.name) k c
     && (match unitSymbolsAttr ctxBits r.name with
         | u => readingMatches u k c && Nat.beq r.usSym (symOf u)
-               && (if memN r.name shadowedC then Nat.beq r.topSym absent else Nat.beq r.topSym (symOf u)))
+               && (if memN r.name shadowedC
+                   then Nat.beq r.topSym absent && memN r.name Ref.C14.shadowedByConstants
+                   else Nat.beq r.topSym (symOf u)))
     && (match addSymbolsAttr customCtxBits r.name with
         | u => Nat.beq r.customSym (symOf u) && (underscored r.name || readingMatches u k c))
   | _ => false
 
-/-- the per-name statement with the explicit guard -/
-def nameOk (r : NameRow) : Bool := nameCheck false r
-
-/-- the full per-name statement -/
-def nameOkFull (r : NameRow) : Bool := nameCheck true r
+/-- the full per-name statement (no guard: the word-prefixed °C spellings parse since the `fix:`
+    that looks documented names up under their rewritten spelling) -/
+def nameOk (r : NameRow) : Bool := nameCheck r
 
 /-- `j`-th slice of length `n` (the kernel's cost grows faster than linearly with the size of one
     obligation, so each chunk is decided in several slices) -/
@@ -146,12 +144,6 @@ def namesChunkOk (i : Nat) : Bool := (rowsChunk i).all nameOk
 
 /-- slice `j` (of 4, 64 rows each) of chunk `i` -/
 def namesSliceOk (i j : Nat) : Bool := (sliceOf (rowsChunk i) j 64).all nameOk
-
-/-- an excluded name really is unusable as a string (the exclusion cannot outlive the finding) -/
-def exclusionFails (r : NameRow) : Bool :=
-  !(excluded r.name) || (stringReading ctxBits r.name).isNone
-
-def exclusionsChunkOk (i : Nat) : Bool := (rowsChunk i).all exclusionFails
 
 /-! ### prefixes on non-prefixable units -/
 
@@ -271,7 +263,9 @@ def prefixDictOk : Bool :=
 def refCodesOk : Bool :=
   (Ref.C14.prefixSymbolsS.map fun (s, k) => (Name.ofString s, k)) == Ref.C14.prefixSymbols
   && (Ref.C14.prefixWordsS.map fun (s, k) => (Name.ofString s, k)) == Ref.C14.prefixWords
+  && (Ref.C14.shadowedByConstantsS.map Name.ofString) == Ref.C14.shadowedByConstants
   && Name.ofString "°C" == Ref.C14.degreeSignC
+  && Name.ofChars deltaDegChars == Name.ofString "delta_deg" && [cpDelta] == "Δ".toList.map Char.toNat
   && Name.ofString "da" == daCode
   && Name.ofChars percentChars == Name.ofString "percent"
   && Name.ofChars degChars == Name.ofString "deg"
@@ -293,7 +287,7 @@ def namespacesClosed : Bool :=
   && topExtraC.isEmpty
   && (customExtraC.all fun (n, s) =>
         customLutT.contains n && Nat.beq s (symOf (addSymbolsAttr customCtxBits n)))
-  && (shadowedC.all fun n => invTree.contains n)
+  && (shadowedC.all fun n => invTree.contains n && memN n Ref.C14.shadowedByConstants)
   && customForeignC.isEmpty
   && invTree.size == invCount && allRows.length == invCount
 
